@@ -1,0 +1,57 @@
+//go:build verif
+
+// Machine-checked contracts (Gobra-style //@ comments) for the verification harness in /verif.
+// This file contains no code; it is compiled only under the build tag "verif".
+package common
+
+//@ pred wfBA(b *BitArray) = b != nil && b.Bits > 0 && len(b.Elems) == (b.Bits + 63) / 64
+//@ pred wfBAorNil(b *BitArray) = b == nil || wfBA(b)
+
+//@ func NewBitArray
+//@   props C08 C15 C17
+//@   requires bits >= 0
+//@   assigns  nothing
+//@   ensures  (result == nil) == (bits == 0)
+//@   ensures  result != nil ==> wfBA(result) && result.Bits == bits && fresh(result)
+
+//@ func (*BitArray).Size
+//@   props C08
+//@   assigns  nothing
+//@   ensures  result == ite(bA == nil, 0, bA.Bits)
+
+//@ func (*BitArray).getIndex
+//@   props C08 C15 C17
+//@   requires wfBA(bA) && i >= 0
+//@   assigns  nothing
+
+//@ func (*BitArray).setIndex
+//@   props C08 C15 C17
+//@   requires wfBA(bA) && i >= 0
+//@   assigns  bA.Elems[*]
+//@   ensures  result == (i < bA.Bits)
+//@   ensures  wfBA(bA)
+
+//@ func (*BitArray).GetIndex
+//@   props C08 C15 C17
+//@   requires bA == nil || (wfBA(bA) && i >= 0)
+//@   assigns  bA.mtx.*
+
+//@ func (*BitArray).SetIndex
+//@   props C08 C15 C17
+//@   requires bA == nil || (wfBA(bA) && i >= 0)
+//@   assigns  bA.Elems[*], bA.mtx.*
+//@   ensures  result == (bA != nil && i < bA.Bits)
+//@   ensures  bA != nil ==> wfBA(bA)
+
+//@ func PanicSanity
+//@   noreturn
+//@   trusted
+//@ func PanicCrisis
+//@   noreturn
+//@   trusted
+//@ func PanicConsensus
+//@   noreturn
+//@   trusted
+//@ func PanicQ
+//@   noreturn
+//@   trusted
